@@ -19,6 +19,7 @@
 #include <fstream>
 #include <iostream>
 #include <map>
+#include <set>
 #include <sstream>
 #include <string>
 #include <sys/personality.h>
@@ -84,6 +85,7 @@ extern std::map<std::string, sg4::ActorPtr> actors;
 extern std::map<std::string, std::string> opts;
 extern std::map<long, std::string> pid2aid;
 extern std::map<std::string, CurOp> curop;
+extern std::set<long> deadpids;
 
 void emit(const char* fmt, ...) __attribute__((format(printf, 1, 2)));
 void flush_log();
